@@ -210,6 +210,10 @@ func VX_C08_project() {
 	case "copy_unknown":
 		g := f.Copy("z", "nosuch")
 		vx.Check(g.Err != nil && g.Len() == -1, "Copy: unknown source rejected")
+		g2 := f.Copy("nosuch", "nosuch")
+		vx.Check(g2.Err != nil && g2.Len() == -1, "Copy: unknown source rejected also when the destination has the same name")
+		g3 := f.Drop("b").Copy("b", "b")
+		vx.Check(g3.Err != nil, "Copy: a dropped column is unknown")
 	case "copy_badname":
 		g := f.Copy("$z", "a")
 		vx.Check(g.Err != nil && g.Len() == -1, "Copy: illegal destination rejected")
